@@ -1215,7 +1215,7 @@ func c04RunCase(t *testing.T, out *vh.Out, c *c04Case) {
 var c04Domains = [][]string{
 	{"example.org", "EXAMPLE.ORG", "Example.Org", "example.org."},
 	{"example.com", "EXAMPLE.com"},
-	{"m\u00fcnchen.de", "mu\u0308nchen.de", "xn--mnchen-3ya.de", "XN--MNCHEN-3YA.DE", "M\u00dcNCHEN.DE"},
+	{"m\u00fcnchen.de", "mu\u0308nchen.de", "xn--mnchen-3ya.de", "XN--MNCHEN-3YA.DE", "M\u00dcNCHEN.DE", "Xn--Mnchen-3ya.de"},
 	{"sub.example.org", "SUB.Example.org"},
 }
 
@@ -1538,20 +1538,44 @@ func (g *c04Gen) envAddr(sender bool) string {
 	return g.spell(g.addr())
 }
 
-// another spelling with the same lookup key (checked with the real ForLookup), or the address itself
+// another spelling of the same address, or the address itself.  Which spellings denote one
+// address is decided by the generator's own tables (each row of c04Locals / c04Domains is one
+// equivalence class by construction: letter case, NFC/NFD, A-label/U-label, trailing dot) - NOT by
+// the ForLookup under test, so a normaliser that stops identifying two spellings is seen as
+// spelling-sensitive routing instead of silently shrinking the set of variants that are tried.
 func (g *c04Gen) respell(a string) string {
-	k, ok := c04Key(a)
-	if !ok || a == "" {
+	if a == "" {
+		return a
+	}
+	if strings.EqualFold(a, "postmaster") {
+		for try := 0; try < 6; try++ {
+			if b := g.r.Pick("postmaster", "POSTMASTER", "PostMaster"); b != a {
+				return b
+			}
+		}
+		return a
+	}
+	at := strings.LastIndex(a, "@")
+	if at <= 0 {
+		return a
+	}
+	row := func(tab [][]string, x string) int {
+		for i, r := range tab {
+			for _, v := range r {
+				if v == x {
+					return i
+				}
+			}
+		}
+		return -1
+	}
+	li, di := row(c04Locals, a[:at]), row(c04Domains, a[at+1:])
+	if li < 0 || di < 0 {
 		return a
 	}
 	for try := 0; try < 6; try++ {
-		var b string
-		if strings.EqualFold(a, "postmaster") {
-			b = g.r.Pick("postmaster", "POSTMASTER", "PostMaster")
-		} else {
-			b = g.r.Pick(c04Locals[g.r.Intn(len(c04Locals))]...) + "@" + g.r.Pick(c04Domains[g.r.Intn(len(c04Domains))]...)
-		}
-		if kb, ok := c04Key(b); ok && kb == k && b != a {
+		b := g.r.Pick(c04Locals[li]...) + "@" + g.r.Pick(c04Domains[di]...)
+		if b != a {
 			return b
 		}
 	}
